@@ -94,6 +94,19 @@ pub fn run_c06_case(c: &C06Case) -> Result<(bool, bool), Violation> {
     ));
   }
   let h1_interesting = facts.windows_opened > 0 || facts.norepeat_fired > 0;
+  if std::env::var("TM_DEBUG_ABS").is_ok() {
+    // development aid: how much absorbed-key memory the history left behind (never an oracle)
+    let fp = used.verif_fingerprint();
+    if let Some(i) = fp.find("mapped_absorbed_keys: [") {
+      let seg = &fp[i..];
+      let end = seg.find(']').unwrap_or(seg.len());
+      let n = seg[..end].matches('(').count();
+      eprintln!("ABS {} mappings={} h1={}", n, c.layout.mappings.len(), c.h1.len());
+      if c.h1.len() > 300 && std::env::var("TM_DEBUG_ABS").map(|v| v == "2").unwrap_or(false) {
+        eprintln!("CASE {} || {} || {}", layout_text(&c.layout), evs_text(&c.h1[c.h1.len() - 60..]), fp);
+      }
+    }
+  }
   let mut fresh = Mapper::for_layout(&c.layout);
   let mut mon2 = Mon::new();
   let mut facts2 = Facts::default();
@@ -111,7 +124,7 @@ pub fn run_c06_case(c: &C06Case) -> Result<(bool, bool), Violation> {
   Ok((h1_interesting, facts2.fired > 0))
 }
 
-fn gen_c06_case(src: &mut Src, quick: bool) -> Option<C06Case> {
+fn gen_c06_case(src: &mut Src, quick: bool, marathon: bool) -> Option<C06Case> {
   let fam = match src.weighted(&[35, 25, 20, 20]) {
     0 => Family::AbsorbingDense,
     1 => Family::RepeatDense,
@@ -119,9 +132,11 @@ fn gen_c06_case(src: &mut Src, quick: bool) -> Option<C06Case> {
     _ => Family::Tagged,
   };
   let opts = LayoutOpts { allow_absorbing: true, max_alphabet: 8 };
-  let g = loaded(gen_family(src, fam, &opts))?;
-  let hist = HistOpts { max_events: if quick { 30 } else { 100 }, max_held: 5, raw_percent: 6, release_all_percent: 0 };
-  let steps = gen_history_no_suffix(src, &g.alphabet, &hist);
+  let fam = if src.chance(if marathon { 70 } else { 6 }) { Family::Wide } else { fam };
+  let mut g = loaded(gen_family(src, fam, &opts))?;
+  let crowd = if !marathon && src.chance(4) { add_crowd(src, &mut g) } else { vec![] };
+  let hist = HistOpts { max_events: if src.chance(5) { 150 } else if quick { 30 } else { 100 }, max_held: 5, raw_percent: 6, release_all_percent: 0, marathon_taps: if marathon { 300 } else { 0 } };
+  let steps = gen_history_mixed(src, &g.layout, &g.alphabet, &hist, &crowd);
   let mut h1: Vec<Event> = Vec::new();
   let mut phys: Vec<KeyCode> = Vec::new();
   for s in steps {
@@ -153,15 +168,20 @@ fn gen_c06_case(src: &mut Src, quick: bool) -> Option<C06Case> {
       let k = src.pick(&g.alphabet);
       if phys.contains(&k) {
         phys.retain(|x| *x != k);
-      } else if phys.len() < 5 {
+      } else if phys.len() < 5 + crowd.len() {
         phys.push(k);
       }
     }
   }
   // h2 starts from the physical situation at the cut: releases of keys that were held when
   // release_all cut in and presses of keys still physically down are ordinary events of it
-  let hist2 = HistOpts { max_events: if quick { 24 } else { 60 }, max_held: 5, raw_percent: 8, release_all_percent: 0 };
-  let h2 = gen_history_from(src, &g.alphabet, &hist2, &phys);
+  let hist2 = HistOpts { max_events: if quick { 24 } else { 60 }, max_held: 5, raw_percent: 8, release_all_percent: 0, marathon_taps: 0 };
+  let hist2 = HistOpts { max_held: hist2.max_held + crowd.len(), ..hist2 };
+  let h2 = if marathon && phys.is_empty() {
+    gen_typing(src, &g.layout, &g.alphabet, 40, &[]).into_iter().filter_map(|s| match s { Step::Ev(e) => Some(e), _ => None }).collect()
+  } else {
+    gen_history_from(src, &g.alphabet, &hist2, &phys)
+  };
   Some(C06Case { layout: g.layout, alphabet: g.alphabet, h1, release_all_cut, h2, family: g.family })
 }
 
@@ -624,8 +644,8 @@ pub fn check(cfg: &RunCfg, _findings: &Findings) -> Report {
     16,
     if quick { 20_000 } else { 200_000 },
     64,
-    if quick { 220 } else { 460 },
-    |src: &mut Src| gen_c06_case(src, quick),
+    if quick { 1000 } else { 1200 },
+    |src: &mut Src| gen_c06_case(src, quick, false),
     |c: &Option<C06Case>, stats: &mut Stats| {
       let c = match c {
         Some(c) => c,
@@ -651,6 +671,42 @@ pub fn check(cfg: &RunCfg, _findings: &Findings) -> Report {
         }
       } else if stats.want_sample() && c.h1.len() + c.h2.len() <= 16 {
         stats.samples.push(c.to_json());
+      }
+      Ok(())
+    },
+  );
+  rep.stats.merge(st);
+  if let Some(f) = fail {
+    if let Some(c) = f.case {
+      let min = minimise_c06(&c, &f.violation.kind);
+      let v2 = run_guarded(|| run_c06_case(&min).map(|_| ())).err().unwrap_or(f.violation);
+      let path = write_replay("C06", &v2, &min.to_json());
+      rep.violations.push((v2, path));
+    }
+    return rep;
+  }
+  // marathons: few, very long typing runs before the cut
+  let (st, fail) = run_prop(
+    cfg,
+    "C06-marathon",
+    16,
+    if quick { 400 } else { 4_000 },
+    4_000,
+    9_000,
+    |src: &mut Src| gen_c06_case(src, quick, true),
+    |c: &Option<C06Case>, stats: &mut Stats| {
+      let c = match c {
+        Some(c) => c,
+        None => {
+          stats.discards += 1;
+          return Ok(());
+        }
+      };
+      let (a, b) = run_c06_case(c)?;
+      stats.label("marathon");
+      stats.count("marathon-events", (c.h1.len() + c.h2.len()) as u64);
+      if a && b {
+        stats.nontrivial_case(hash64(&(layout_text(&c.layout), evs_text(&c.h1), c.release_all_cut, evs_text(&c.h2))));
       }
       Ok(())
     },
